@@ -262,3 +262,165 @@ def exec_op(obj, objid, op, model, naming, fobj=None, seqno=1):
         out = 'error:' + errname(exc)
     post, anom = project(model, naming)
     return {'a': 'Exec', 'args': args, 'out': out, 'post': post, 'anom': anom, 'ret': ret}
+
+
+# ---------------------------------------------------------------------------
+# Metrics report (C17)
+def _x100(v, bad, what):
+    if isinstance(v, bool) or not isinstance(v, (int, float)) or v != v or abs(v) > 1e7:
+        bad.append('%s not a number: %s' % (what, tok(v)))
+        return 0
+    x = int(round(v * 100))
+    if abs(v * 100 - x) > 1e-6:
+        bad.append('%s has more than two decimals: %s' % (what, tok(v)))
+    return x
+
+
+def project_metrics(res, model, naming):
+    """The report as a sequence of fixed-shape entries."""
+    bad = []
+    entries = []
+    ctc_strs = []
+    for c in model.ctcs:
+        try:
+            ctc_strs.append(str(c))
+        except Exception:
+            ctc_strs.append(None)
+    if not isinstance(res, list):
+        return [], ['report not a list: ' + tok(res)]
+    for item in res:
+        e = {'name': '', 'kind': 'none', 'names': [], 'idx': [], 'len': 0, 'x100': 0,
+             'has_size': False, 'size': 0, 'has_ratio': False, 'r4': 0, 'parent': '', 'level': 0}
+        if not isinstance(item, dict) or not isinstance(item.get('name'), str):
+            bad.append('entry not a named dict: ' + tok(item))
+            entries.append(e)
+            continue
+        e['name'] = item['name']
+        val = item.get('result')
+        if isinstance(val, list):
+            e['len'] = len(val)
+            if item['name'].lower().endswith('constraints') and 'features in' not in item['name'].lower():
+                e['kind'] = 'idx'
+                used = set()
+                for sv in val:
+                    hit = 0
+                    for i, cs in enumerate(ctc_strs):
+                        if cs == sv and i not in used:
+                            hit = i + 1
+                            used.add(i)
+                            break
+                    e['idx'].append(hit)
+            elif item['name'] == 'Tree relationships':
+                e['kind'] = 'count'
+            else:
+                e['kind'] = 'names'
+                e['names'] = [naming.abs(x) if isinstance(x, str) else '?n:<%s>' % type(x).__name__ for x in val]
+        elif isinstance(val, str):
+            e['kind'] = 'names'
+            e['names'] = [naming.abs(val)]
+            e['len'] = 1
+        else:
+            e['kind'] = 'scalar'
+            e['x100'] = _x100(val, bad, item['name'])
+        size = item.get('size')
+        if size is not None:
+            if isinstance(size, int) and not isinstance(size, bool) and abs(size) < I32:
+                e['has_size'], e['size'] = True, size
+            else:
+                bad.append('%s.size=%s' % (item['name'], tok(size)))
+        ratio = item.get('ratio')
+        if ratio is not None:
+            if isinstance(ratio, (int, float)) and not isinstance(ratio, bool) and ratio == ratio and abs(ratio) < 1e4:
+                e['has_ratio'] = True
+                e['r4'] = int(round(ratio * 10000))
+                if abs(ratio * 10000 - e['r4']) > 1e-6:
+                    bad.append('%s.ratio has more than four decimals: %s' % (item['name'], tok(ratio)))
+            else:
+                bad.append('%s.ratio=%s' % (item['name'], tok(ratio)))
+        par = item.get('parent')
+        e['parent'] = par if isinstance(par, str) else ''
+        lvl = item.get('level')
+        e['level'] = lvl if isinstance(lvl, int) and not isinstance(lvl, bool) else -1
+        entries.append(e)
+    return entries, bad
+
+
+def exec_metrics(obj, objid, model, naming, flt=None, seqno=1, with_agree=True):
+    """FMMetrics on an existing object (with an optional only_these_metrics filter)."""
+    args = {'op': 'metrics', 'obj': objid, 'f': '', 'seq': seqno,
+            'filtered': flt is not None, 'filter': list(flt) if flt is not None else []}
+    out = 'value'
+    ret = empty_ret()
+    ret['metrics'] = []
+    try:
+        with time_limit():
+            if flt is not None:
+                obj.only_these_metrics(list(flt))
+            res = obj.execute(model).get_result()
+        ret['metrics'], ret['bad'] = project_metrics(res, model, naming)
+    except (Exception, CallTimeout) as exc:
+        out = 'error:' + errname(exc)
+    # the per-constraint predicates and the stand-alone operations the report must agree with
+    ret['ctc'] = [classify(c, naming) for c in model.ctcs]
+    agree = {}
+    for op in ('abf', 'depth', 'leaves', 'count_leaves'):
+        ev = exec_op(new_op(op), 0, op, model, naming)
+        agree[op] = {'out': ev['out'], 'n': ev['ret']['n'], 'names': ev['ret']['names']}
+    ret['agree'] = agree
+    post, anom = project(model, naming)
+    return {'a': 'Exec', 'args': args, 'out': out, 'post': post, 'anom': anom, 'ret': ret}
+
+
+# ---------------------------------------------------------------------------
+# Random attribute generation (C19)
+from flamapy.metamodels.fm_metamodel.models import Domain, Range  # noqa: E402
+
+DOM_SHAPES = {
+    # shape: (elements, ranges, scale)
+    'elements':   (['x', 'y', 3, True], [], 1),
+    'intrange':   ([], [(1, 3)], 1),
+    'floatrange': ([], [(0.5, 2.25)], 100),
+    'tworanges':  ([], [(1, 2), (10, 12)], 1),
+    'mixture':    (['lo', 'hi'], [(5, 6)], 1),
+    'mixedfloat': ([], [(1, 2.5)], 10),
+    'unset':      ([], [], 1),
+}
+
+
+def gen_attr(model, naming, attr_abs, shape, leaves, seed):
+    import random as _random
+    from flamapy.metamodels.fm_metamodel.operations import GenerateRandomAttribute
+    elems, ranges, scale = DOM_SHAPES[shape]
+    name = naming.conc(attr_abs)
+    args = {'name': attr_abs, 'leaves': leaves, 'unset': shape == 'unset', 'shape': shape, 'seed': seed,
+            'scale': scale, 'elems': [tok(x) for x in elems],
+            'ranges': [{'isint': isinstance(lo, int) and isinstance(hi, int),
+                        'lo': int(round(lo * scale)), 'hi': int(round(hi * scale))} for lo, hi in ranges]}
+    op = GenerateRandomAttribute()
+    out = 'value'
+    _random.seed(seed)
+    try:
+        with time_limit():
+            op.set_name(name)
+            if shape != 'unset':
+                op.set_domain(Domain([Range(lo, hi) for lo, hi in ranges] or None, list(elems) or None))
+            op.set_only_leaf_features(leaves)
+            op.execute(model)
+    except (Exception, CallTimeout) as exc:
+        out = 'error:' + errname(exc)
+    pj = Projector(naming)
+    post, fobjs, _ = pj.model(model)
+    added = []
+    for f in fobjs:
+        mine = [a for a in f.attributes if getattr(a, 'name', None) == name]
+        if not mine:
+            continue
+        v = mine[-1].default_value
+        rec = {'f': naming.abs(f.name), 'tok': tok(v), 'isnum': False, 'isint': False, 'num': 0}
+        if isinstance(v, (int, float)) and not isinstance(v, bool) and v == v and abs(v) < 1e6:
+            x = v * scale
+            if abs(x - round(x)) < 1e-9:
+                rec.update(isnum=True, isint=isinstance(v, int), num=int(round(x)))
+        added.append(rec)
+    # the generated attribute's domain token is not compared: mask it in the projection of NEW attributes only
+    return {'a': 'GenAttr', 'args': args, 'out': out, 'post': post, 'anom': pj.anom, 'ret': {'added': added}}
